@@ -117,6 +117,7 @@ L2bStep == \A k \in 1..Len(S.flows) :
    (ActiveFlow(S.flows[k]) /\ DoneS(S'.flows[k])) =>
       \A a \in RangeS(S.flows[k].actions) :
          (/\ S.actions[a].status \in {"STARTING", "STARTED"} /\ a # FinishedNow
+          /\ ~(a \in DOMAIN mon.m /\ mon.m[a] = "stopped")          \* (it got its one Stop earlier, e.g. when its scope was left; a late Started does not earn it another)
           /\ ~\E j \in 1..Len(S'.flows) : ActiveFlow(S'.flows[j]) /\ a \in RangeS(S'.flows[j].actions))
          => \E i \in 1..Len(S'.out) : S'.out[i].act = a /\ S'.out[i].name = "Stop" \o S.actions[a].name
 L2bS == [][L2bStep]_vars
